@@ -548,7 +548,7 @@ package eventbus
 //@   requires bus != nil && ctx != nil && event != nil
 //@   ensures [C09.persistsOnce] {C09,C13} cnt(persistCall) == 1 && lastarg(persistCall, 0) == bus && lastarg(persistCall, 1, Iface) == ctx
 //@        && lastarg(persistCall, 2) == eventType && lastarg(persistCall, 3, Iface) == event
-//@   ensures [C09.chain] cnt(beforeHookCtx) == ite(hook != nil, 1, 0)
+//@   ensures [C09.chain] {C09,C08} cnt(beforeHookCtx) == ite(hook != nil, 1, 0)
 //@   at call:(*EventBus).persistEvent assert [C09.chain.first] cnt(beforeHookCtx) == ite(hook != nil, 1, 0)
 //@   fact persists(self, bus)
 
@@ -784,7 +784,7 @@ package eventbus
 //@ func (*MemoryStore).Append
 //@   props C10 C09
 //@   requires m != nil && event != nil
-//@   ensures [C10.append.result] err == nil && result0 == pad20(len(acq(m.events)) + 1)
+//@   ensures [C10.append.result] {C10,C13} err == nil && result0 == pad20(len(acq(m.events)) + 1)
 //@   ensures [C10.append.increasing] forall i int :: {acq(m.events[i])} 0 <= i && i < len(acq(m.events)) ==> acq(m.events[i]).Offset < result0
 //@   ensures [cs.single] cnt(lockMem) == 1 && cnt(unlockMem) == 1
 //@   at unlock:MemoryStore.mu assert [C10.append.log] len(m.events) == len(acq(m.events)) + 1 &&
@@ -1004,7 +1004,7 @@ package eventbus
 //@   ensures [C17.apply.ok] {C17} result2 == nil ==> result0 == acq(chainD(arrayOf(firstUp, string, r), data, eventType)) &&
 //@        result1 == acq(chainT(arrayOf(firstUp, string, r), data, eventType)) && acq(chainOK(arrayOf(firstUp, string, r), data, eventType))
 // completeness for the cases without any possibility of a repeated type: no upcaster at all, or one successful step to a type without upcaster
-//@   ensures [C17.apply.none] {C17} acq(arrayOf(firstUp, string, r))[eventType] == 0 ==> result2 == nil && result0 == data && result1 == eventType && cnt(upcastCall) == 0
+//@   ensures [C17.apply.none] {C17,C15} acq(arrayOf(firstUp, string, r))[eventType] == 0 ==> result2 == nil && result0 == data && result1 == eventType && cnt(upcastCall) == 0
 //@   ensures [C17.apply.onestep] {C17} firstUp(r, eventType) != 0 && !upFails(firstUp(r, eventType), data) &&
 //@        upType(firstUp(r, eventType), data) != eventType && firstUp(r, upType(firstUp(r, eventType), data)) == 0 ==> result2 == nil
 //@   ensures [C17.apply.fail.original] {C17} result2 != nil ==> result0 == data && result1 == eventType
@@ -1068,6 +1068,10 @@ package eventbus
 //@   maypanic
 //@   requires bus != nil && handler != nil && subStore != nil && ctx != nil
 //@   ensures [C12.live.handled] cnt(handlerCall) == 1 && lastarg(handlerCall, 0) == handler && lastarg(handlerCall, 1) == event
+// a panic of the user's handler is not swallowed by the wrapper (the bus's recovery in callHandlerWithContext
+// must see it: panic handler, OnHandlerComplete error), and nothing is saved for an event whose handler panicked
+//@   ensures [C05.live.norecover] {C05,C12} !recovered()
+//@   onpanic [C05.live.nosave] {C05,C12} cnt(saveOffset) == 0
 //@   at call:SubscriptionStore.SaveOffset assert [C12.live.order] cnt(handlerCall) == 1
 // what the property needs: the position saved is the position of the event this
 // call just handled (recordedAt(event): the offset its publish was persisted at).
